@@ -30,6 +30,7 @@ Hypothesis PS : pure_sites (@pure_ok).
 (* what an installed function returns, and what the installed directives make of a value, is acceptable *)
 Hypothesis PU_func : forall name ar f vs, ux_func ux name = Some (ar, f) -> pure_ok (f vs).
 Hypothesis PU_print : forall m ds v, pure_ok (print_writes_x ux m ds v).
+Hypothesis PU_dirs : forall ds v esc, pure_ok (apply_directives_x ux ds v esc).
 
 Ltac phi_bind := apply (wl_bind _ _ L); [ | intro ].
 Ltac phi_leaf :=
@@ -41,13 +42,14 @@ Section BodyX.
 Variable w : node -> M value.
 Hypothesis Hw : forall n, Phi (w n).
 
-Lemma phi_print_dirs_x l : Phi (print_dirs_x cf ux w l).
+Lemma phi_print_dirs_x l : forall v, Phi (print_dirs_x cf ux w l v).
 Proof.
-  induction l as [|d r IH]; cbn [print_dirs_x]; [phi_leaf|].
+  induction l as [|d r IH]; intros v; cbn [print_dirs_x]; [phi_leaf|].
   destruct d; try phi_leaf.
   destruct (dir_entry_x ux name) as [[arglens ?]|]; [|phi_leaf].
   destruct (negb _); [phi_leaf|].
-  phi_bind; [apply (phi_eval_list _ _ L w Hw)|]. phi_bind; [exact IH|]. phi_leaf.
+  phi_bind; [apply (phi_eval_list _ _ L w Hw)|]. phi_bind; [apply (wl_lift _ _ L); apply PU_dirs|].
+  phi_bind; [apply IH|]. phi_leaf.
 Qed.
 
 Lemma phi_print_x arg dirs : Phi (print_x cf ux w arg dirs).
@@ -133,6 +135,7 @@ Proof.
   apply (walk_logic_x cf ux _ _ (inv_logic I R E (fun _ => True) C) pure_sites_any).
   - intros name ar f vs _. unfold inv_pure_ok. destruct (classify (f vs)); exact Logic.I.
   - intros m ds v. unfold inv_pure_ok. destruct (classify _); exact Logic.I.
+  - intros ds v esc. unfold inv_pure_ok. destruct (classify _); exact Logic.I.
 Qed.
 
 (* ------------------------------------------------------------------ *)
@@ -371,3 +374,77 @@ Lemma tr_witness :
   (* the text after the last placeholder of the selected form, refused: the render returns the error *)
   (rr_outcome (tr_run (Some tr_bundle) 3 (Some 1%nat)), rr_writes (tr_run (Some tr_bundle) 3 (Some 1%nat))) = (Err e_write, [b "3"]).
 Proof. vm_compute. repeat split; reflexivity. Qed.
+
+(* ------------------------------------------------------------------ *)
+(* (E) which runs of Renderer.Execute the walker of Model/Interp.v covers.
+
+   [Interp.walk] never reads [c_msgs]: on a {msg} it always takes the source text (walkMsgBody).  So every theorem
+   stated about [Interp.walk cf] / [Interp.render cf] (C02, C06, C19 ...) is, for EVERY [cf], a statement about the run
+   without a bundle ([walk_ignores_bundle]); and that run is what exec.go does (a) without Renderer.WithMessages and
+   (b) with a bundle that has no translation of any message met ([walk_x_untranslated]: evalMsg falls back to the
+   source text).  A run that goes THROUGH a translation (evalMsgParts) is described by [walk_x] only: the properties
+   proved over [walk_x] (C08, C12: [inv_walk_x], [walk_logic_x]) cover it, the others do not. *)
+Definition cfg_no_msgs (cf : cfg) : cfg :=
+  {| c_reg := c_reg cf; c_ij := c_ij cf; c_oblig := c_oblig cf; c_msgs := None |}.
+
+Lemma walk_body_no_msgs cf w n : walk_body cf w n = walk_body (cfg_no_msgs cf) w n.
+Proof. destruct cf. reflexivity. Qed.
+
+Theorem walk_ignores_bundle cf : forall fuel n st, walk cf fuel n st = walk (cfg_no_msgs cf) fuel n st.
+Proof.
+  induction fuel as [|f IH]; intros n st; [reflexivity|].
+  cbn [walk]. rewrite (walk_body_no_msgs cf).
+  apply (walk_body_same (cfg_no_msgs cf) (walk cf f) (walk (cfg_no_msgs cf) f)). intros n' st'. apply IH.
+Qed.
+
+Theorem render_ignores_bundle cf fuel name id data cl bl fid :
+  render cf fuel name id data cl bl fid = render (cfg_no_msgs cf) fuel name id data cl bl fid.
+Proof.
+  unfold render. cbn [cfg_no_msgs c_reg]. destruct (find_template _ name) as [t|]; [|reflexivity].
+  rewrite (walk_ignores_bundle cf). reflexivity.
+Qed.
+
+(* a bundle without a translation of any message: evalMsg's fallback, the walker of Model/Interp.v *)
+Definition untranslated (cf : cfg) : Prop := forall id, msg_translation cf id = None.
+
+Lemma untranslated_none cf : c_msgs cf = None -> untranslated cf.
+Proof. intros H id. unfold msg_translation. rewrite H. destruct (id =? 0); reflexivity. Qed.
+Lemma untranslated_empty cf mb : c_msgs cf = Some mb -> mb_msgs mb = [] -> untranslated cf.
+Proof. intros H He id. unfold msg_translation. rewrite H, He. destruct (id =? 0); reflexivity. Qed.
+
+Lemma walk_body_x_untranslated cf w n : untranslated cf -> walk_body_x cf no_ext w n = walk_body cf w n.
+Proof.
+  intros Hm. destruct n; try reflexivity; cbn [walk_body_x].
+  - destruct (_ || _ || _); reflexivity.
+  - unfold print_uses_installed, is_installed_dir. cbn [no_ext ux_dir]. rewrite existsb_none. reflexivity.
+  - rewrite (Hm id). reflexivity.
+Qed.
+
+Theorem walk_x_untranslated cf : untranslated cf -> forall fuel n st, walk_x cf no_ext fuel n st = walk cf fuel n st.
+Proof.
+  intros Hm. induction fuel as [|f IH]; intros n st; [reflexivity|].
+  cbn [walk_x walk]. rewrite (walk_body_x_untranslated cf _ n Hm).
+  apply (walk_body_same cf (walk_x cf no_ext f) (walk cf f)). intros n' st'. apply IH.
+Qed.
+
+Theorem render_x_untranslated cf fuel name id data cl bl fid :
+  untranslated cf ->
+  render_x cf no_ext fuel name id data cl bl fid = render cf fuel name id data cl bl fid.
+Proof.
+  intros Hm. unfold render_x, render. destruct (find_template _ name) as [t|]; [|reflexivity].
+  rewrite (walk_x_untranslated cf Hm). reflexivity.
+Qed.
+
+(* and the walker of Model/Interp.v is NOT the run through a translation: a bundle whose translation of message 77
+   is the text "v" -- [walk_x] writes it, [walk] writes the source text *)
+Example translated_run_not_covered :
+  let cf := {| c_reg := empty_registry; c_ij := None; c_oblig := [];
+               c_msgs := Some {| mb_msgs := [(77, [NRawText 0 [118]])]; mb_plural := []; mb_plural_default := 0 |} |} in
+  let n := NMsg 10 77 [] [] [NRawText 11 [120]] in
+  let st := init_state [] 1 [] None None 2 in
+  out (snd (walk_x cf no_ext 3 n st)) = [[118]] /\ out (snd (walk cf 3 n st)) = [[120]].
+Proof. vm_compute. split; reflexivity. Qed.
+
+(* the structural tie of the extended walker (probes of [walk_body_x] against the event lists of exec.go) is an
+   obligation of every property that imports this file (required last, as in Proofs/InterpLogic.v) *)
+From Soy Require Import Proofs.WalkTieProbesX.
